@@ -176,6 +176,15 @@ func sameTx(a, b *bt.Tx) string {
 func c16TxCheck(c c16Tx) (fs []rep.Finding) {
 	tx := c16Build(c)
 	pristine := c16Build(c) // an independent copy: marshalling must not change the object being marshalled
+	// another transaction with one input and one output fewer, fully signed (always marshallable)
+	sr := c.R
+	if sr.NIn > 1 {
+		sr.NIn--
+	}
+	if sr.NOut > 0 {
+		sr.NOut--
+	}
+	smaller := c16Build(c16Tx{R: sr, Signed: 2, Script: 0, Amt: c.Amt + 3})
 	defer func() {
 		if !bytes.Equal(tx.Bytes(), pristine.Bytes()) {
 			fs = append(fs, rep.F("marshal-mutates-transaction", fmt.Sprintf("the transaction changed while being marshalled: %x -> %x", pristine.Bytes(), tx.Bytes())))
@@ -197,6 +206,13 @@ func c16TxCheck(c c16Tx) (fs []rep.Finding) {
 			fs = append(fs, rep.F("Tx.json|unmarshal-own", err.Error()))
 		} else if d := sameTx(pristine, &back); d != "" {
 			fs = append(fs, rep.F("Tx.json|roundtrip", d))
+		} else if b2, err := json.Marshal(smaller); err == nil {
+			// the same variable decodes another transaction
+			if err := json.Unmarshal(b2, &back); err != nil {
+				fs = append(fs, rep.F("Tx.json|decode-into-used-tx", err.Error()))
+			} else if d := sameTx(smaller, &back); d != "" {
+				fs = append(fs, rep.F("Tx.json|decode-into-used-tx", d))
+			}
 		}
 	})
 	q("Tx.node", func() {
@@ -209,6 +225,12 @@ func c16TxCheck(c c16Tx) (fs []rep.Finding) {
 			fs = append(fs, rep.F("Tx.node|unmarshal-own", err.Error()))
 		} else if d := sameTx(pristine, back); d != "" {
 			fs = append(fs, rep.F("Tx.node|roundtrip", d))
+		} else if b2, err := json.Marshal(smaller.NodeJSON()); err == nil {
+			if err := json.Unmarshal(b2, back.NodeJSON()); err != nil {
+				fs = append(fs, rep.F("Tx.node|decode-into-used-tx", err.Error()))
+			} else if d := sameTx(smaller, back); d != "" {
+				fs = append(fs, rep.F("Tx.node|decode-into-used-tx", d))
+			}
 		}
 	})
 	q("Txs.node", func() {
@@ -360,7 +382,7 @@ func c16Boundary() []uint64 {
 
 func init() {
 	p := register(&Prop{ID: "C16", Level: "exploration",
-		Rule: "exhaustive: (amounts) every amount 0..2,000,000 (quick) / 0..100,000,000 (thorough) and ~8,300 decimal-boundary amounts up to 21e14 through Output and UTXO in both JSON dialects (marshal -> unmarshal -> equal satoshis/script/txid/vout); (transactions) product of shapes nIn 0..3 x nOut 0..3 x signing state {unsigned(nil scripts), first input only, all, empty scripts} x 52 output-script kinds (P2PKH, empty, data with pushes of 1..5 bytes, multisig, inscription, odd pushes, 300 bytes, 12 scripts that end inside a push: every partial PUSHDATA1/2/4 length field and short payloads, and the inscription template with each token replaced by an empty PUSHDATA1 / PUSHDATA4 push) x boundary amounts x version/locktime values, each marshalled as Tx (library and node dialect), Txs list (node), []*Tx, per-output Output (both), UTXOs list (node) and []*UTXO, the node-dialect lists also decoded into a list variable that was decoded into before (shorter, longer and empty lists): marshal must return (value or error, no panic) and the unmarshalled object must have identical Bytes()/TxID/scripts/satoshis. distinct_nontrivial = distinct amounts + distinct transaction serialisations round-tripped",
+		Rule: "exhaustive: (amounts) every amount 0..2,000,000 (quick) / 0..100,000,000 (thorough) and ~8,300 decimal-boundary amounts up to 21e14 through Output and UTXO in both JSON dialects (marshal -> unmarshal -> equal satoshis/script/txid/vout); (transactions) product of shapes nIn 0..3 x nOut 0..3 x signing state {unsigned(nil scripts), first input only, all, empty scripts} x 52 output-script kinds (P2PKH, empty, data with pushes of 1..5 bytes, multisig, inscription, odd pushes, 300 bytes, 12 scripts that end inside a push: every partial PUSHDATA1/2/4 length field and short payloads, and the inscription template with each token replaced by an empty PUSHDATA1 / PUSHDATA4 push) x boundary amounts x version/locktime values, each marshalled as Tx (library and node dialect), Txs list (node), []*Tx, per-output Output (both), UTXOs list (node) and []*UTXO, a Tx variable decoded into twice (both dialects), the node-dialect lists also decoded into a list variable that was decoded into before (shorter, longer and empty lists): marshal must return (value or error, no panic) and the unmarshalled object must have identical Bytes()/TxID/scripts/satoshis. distinct_nontrivial = distinct amounts + distinct transaction serialisations round-tripped",
 	})
 	sA := NewSpace(p, "amounts", c16AmtCheck)
 	sT := NewSpace(p, "transactions", c16TxCheck)
